@@ -5,10 +5,14 @@ V = os.path.dirname(os.path.dirname(os.path.abspath(__file__)))
 PROOF_NOTE = ('Trusted: Coq 8.16.1 kernel (vm_compute, no native_compute), no axioms beyond those printed per theorem in the evidence; '
               'the hand-written Gallina model is tied to /repo by T-corr (extracted OCaml model vs the real code on generated cases, sampled) '
               'and where stated by T-src (tools/srcfacts.py over clang JSON AST, regenerated each run); extraction uses ExtrOcamlBasic only.')
-CLAIMED = {
- 'C18': dict(text='Machine-checked refinement (Coq): for every capacity and every history of store/flush/re-init the ring buffer emits exactly the most recent min(cap, stored) events, oldest first, once, with no out-of-bounds access (C18_bt_refines + spec lemmas; refutations of the two unfixed configurations). Tied to BacktraceStorage by differential runs of the extracted model against the real class plus a direct property monitor. The backend-level clauses (held back when logged, replay right after the trigger) are covered by the M-BE checks when present; see DESIGN §5 C18.',
-             design='§5 C18', technique='Coq refinement proof (ring -> most-recent-N spec) + extracted-model/implementation differential correspondence'),
-}
+import importlib, sys
+sys.path.insert(0, os.path.join(V, 'lib')); sys.path.insert(0, V)
+CLAIMED = {}
+for f in sorted(os.listdir(os.path.join(V, 'props'))):
+    if f.startswith('c') and f.endswith('.py'):
+        mod = importlib.import_module('props.' + f[:-3])
+        if getattr(mod, 'MANIFEST', None):
+            CLAIMED[mod.PID] = mod.MANIFEST
 REASON_NOT_YET = 'not claimed yet: model and proof not built at this commit (planned in DESIGN §5); no check is registered rather than registering a weaker technique'
 props = [json.loads(l) for l in open(os.path.join(V, 'properties.jsonl'))]
 checks = []; na = []
@@ -23,7 +27,7 @@ for p in props:
             'evidence_file': '/verif/evidence/%s.json' % i,
             'replay_cmd_template': './check %s --replay {path}' % i,
             'engine': 'coq-proof+correspondence',
-            'level_claimed': {'category': 'proof', 'text': c['text'], 'design_ref': c['design']},
+            'level_claimed': {'category': c.get('category', 'proof'), 'text': c['text'], 'design_ref': c['design']},
             'level_note': c.get('note', PROOF_NOTE),
             'technique': c['technique'],
         })
